@@ -74,6 +74,9 @@ type c20Setting struct {
 	// Secrets and ConfigMaps are updated) instead of rewriting a file in place
 	viaLink bool
 	linkGen int
+	// agedFiles: what is put in place carries a modification time in the past (a file prepared earlier and moved in,
+	// a roll-back to an older file): content decides, not timestamps
+	agedFiles bool
 
 	cfg     *oidcv1.OIDCConfig
 	configs []*tls.Config // every pointer LoadTLSConfig returned for this setting
@@ -105,13 +108,24 @@ func boolStrRef(v *structpb.Value) bool {
 // put makes the configured path hold content: rewritten in place, or - via a link - written to a new data file to
 // which the link is then re-pointed atomically.
 func (s *c20Setting) put(content []byte) {
+	s.linkGen++
+	old := time.Date(2001, 2, 3, 4, 5, 6, 0, time.UTC).Add(-time.Duration(s.linkGen) * time.Hour) // older every time
 	if !s.viaLink {
+		if s.agedFiles && s.linkGen > 1 {
+			tmp := s.file + ".prepared"
+			_ = os.WriteFile(tmp, content, 0o644)
+			_ = os.Chtimes(tmp, old, old)
+			_ = os.Rename(tmp, s.file)
+			return
+		}
 		_ = os.WriteFile(s.file, content, 0o644)
 		return
 	}
-	s.linkGen++
 	data := fmt.Sprintf("%s.data-%d", s.file, s.linkGen)
 	_ = os.WriteFile(data, content, 0o644)
+	if s.agedFiles && s.linkGen > 1 {
+		_ = os.Chtimes(data, old, old)
+	}
 	tmp := s.file + ".tmp-link"
 	_ = os.Remove(tmp)
 	_ = os.Symlink(data, tmp)
@@ -195,6 +209,7 @@ func c20Prop(c *sim.Case) {
 		if s.caKind == 2 {
 			s.file = filepath.Join(e.dir, fmt.Sprintf("ca-%d.pem", atomic.AddInt64(&c20File, 1)))
 			s.viaLink = sim.Weighted(c, "file-via-symlink", 2, 1) == 1
+			s.agedFiles = sim.Weighted(c, "file-aged", 2, 1) == 1
 			s.put(e.cas[s.caIdx].PEM)
 			s.loadCA = s.caIdx
 			if s.viaLink {
